@@ -163,6 +163,10 @@ M = [
     ('C14', 'PGPKey.__copy__', 'pgpy.pgp', "            if sig.embedded:\n                # embedded signatures don't need to be explicitly copied\n                continue\n", ""),
     ('C18', 'add_subkey', 'pgpy.pgp', "            npk.created = key._key.created", "            npk.created = self._key.created"),
     ('C11', '__str__[cleartext', 'pgpy.pgp', "                   u\"{cleartext:s}\\n\" \\\n", "                   u\"{cleartext:s}\" \\\n"),
+    ('C17', 'expiry', 'pgpy.pgp', "            return expires <= datetime.now(timezone.utc)", "            return expires < datetime.now(timezone.utc)"),
+    ('C17', 'expiry', 'pgpy.pgp', "        if expires_at is not None and expires_at != self.created:", "        if expires_at is not None:"),
+    ('C17', 'expiry', 'pgpy.pgp', "            if sig.key_expiration is not None:\n                expires = sig.key_expiration\n", "            if sig.key_expiration is not None and expires is None:\n                expires = sig.key_expiration\n"),
+    ('C17', 'expiry', 'pgpy.pgp', "            return self.created + expd\n        return None", "            return self.created\n        return None"),
 ]
 
 
